@@ -64,6 +64,20 @@ Definition decode_scalar (k : skind) (j : jval) (cur : gval) : res gval :=
       end
   end.
 
+(* a binding may name a slice or pointer type: `[]pkg.T` -> Some (true, "pkg.T"), `*pkg.T` ->
+   Some (false, "pkg.T") *)
+Definition ref_shape (r : str) : option (bool * str) :=
+  match r with
+  | c1 :: rest =>
+      if N.eqb c1 42 then Some (false, rest)
+      else if N.eqb c1 91 then match rest with
+                               | c2 :: rest' => if N.eqb c2 93 then Some (true, rest') else None
+                               | [] => None
+                               end
+      else None
+  | [] => None
+  end.
+
 (* ---- ASCII case folding of keys (encoding/json falls back to a case-insensitive match) ---- *)
 Definition fold_eqb (x y : str) : bool := str_eqb (map to_lower x) (map to_lower y).
 
@@ -255,10 +269,10 @@ Section Decode.
         match t with
         | GOpaque r g m u =>
             (* a binding may name a slice or pointer type: `[]pkg.T`, `*pkg.T` *)
-            match r with
-            | 91 :: 93 :: rest => decode f (GSlice (GOpaque rest g m u)) j cur
-            | 42 :: rest => decode f (GPtr (GOpaque rest g m u)) j cur
-            | _ => decode_scalar (scalar_kind t) j cur
+            match ref_shape r with
+            | Some (true, rest) => decode f (GSlice (GOpaque rest g m u)) j cur
+            | Some (false, rest) => decode f (GPtr (GOpaque rest g m u)) j cur
+            | None => decode_scalar (scalar_kind t) j cur
             end
         | GAlias _ | GEnum _ => decode_scalar (scalar_kind t) j cur
         | GGeneric _ e => Err (b "generic-not-modelled")
